@@ -117,7 +117,7 @@ def classes(tokens):
                 out.add('KF-04a')
         if t in ('/', '/=') and nxt is not None and is_lt(nxt):
             out.add('KF-03f')
-        if t in ('++', '--', '}') and nsig == '/=':
+        if t in ('++', '--', '}') and nsig is not None and nsig.startswith('/=') and not is_comment(nsig):
             out.add('KF-05e')
         if t in HEADER_KW and nxt is not None and (is_lt(nxt) or is_comment(nxt)):
             out.add('KF-05b')       # header keyword separated from its `(` by a line terminator or comment
